@@ -475,7 +475,7 @@ func check(p *Prop, tier string) int {
 	if chunk <= 0 {
 		chunk = 100
 	}
-	deadline := t0.Add(time.Duration(wall) * time.Second)
+	deadline := time.Now().Add(time.Duration(wall) * time.Second) // the budget starts after the build
 	a := newAgg()
 	var mu sync.Mutex
 	next := 0
@@ -535,6 +535,9 @@ func check(p *Prop, tier string) int {
 	wg.Wait()
 	if infraErr != nil {
 		infra("%v", infraErr)
+	}
+	if a.runs == 0 && viol == nil {
+		infra("no run completed within the budget (wall %ds)", wall)
 	}
 	exit := 0
 	var replayPath string
